@@ -45,6 +45,17 @@ func c09Configs() map[string]map[string]string {
 		"r.yml":        tf("  G: r\n", "  shared: ./s.yml\n", "t"),
 		"s.yml":        tf("  H: s\n", "", "leaf"),
 	}
+	m["diamond-internal-one-side"] = map[string]string{
+		"Taskfile.yml": tf("", "  l: ./l.yml\n  r: ./r.yml\n", "show"),
+		"l.yml":        tf("  G: l\n", "  shared:\n    taskfile: ./s.yml\n    internal: true\n", "t"),
+		"r.yml":        tf("  G: r\n", "  shared:\n    taskfile: ./s.yml\n", "t"),
+		"s.yml":        tf("  H: s\n", "", "leaf"),
+	}
+	m["optional-include-broken-inside"] = map[string]string{
+		"Taskfile.yml": tf("", "  opt:\n    taskfile: ./opt.yml\n    optional: true\n  ok: ./ok.yml\n", "show"),
+		"opt.yml":      tf("  G: opt\n", "  missing: ./does-not-exist.yml\n", "t"),
+		"ok.yml":       tf("  G: ok\n", "", "t"),
+	}
 	m["same-file-twice"] = map[string]string{
 		"Taskfile.yml": tf("", "  n1:\n    taskfile: ./inc.yml\n    vars: {G: first}\n  n2:\n    taskfile: ./inc.yml\n    vars: {G: second}\n    internal: true\n", "show"),
 		"inc.yml":      tf("  H: inc\n", "", "t", "u"),
